@@ -78,6 +78,13 @@ func init() {
 					}
 				}
 				r.serve(len(conns) + len(pre))
+				// listeners=2: the server listens on two ports (ck-server's default is :443 and :80), connections
+				// arriving through either belong to the same users and sessions
+				twoPorts := c.P("listeners", "1") == "2"
+				if twoPorts {
+					r.serveOn(r.net.Listen("server:80", false), len(conns)+len(pre))
+				}
+				port := map[string]string{}
 				type res struct {
 					u, s int
 					key  [32]byte
@@ -90,7 +97,11 @@ func init() {
 					var u, s int
 					fmt.Sscanf(spec, "%d.%d", &u, &s)
 					remote, auth := r.clientCfg(uidOf(u), uint32(s), "plain", "firefox", "example.com", 1, false, "shadowsocks")
-					conn, err := r.dialer.Dial("tcp", "server:443")
+					addr := "server:443"
+					if p := port[spec]; p != "" {
+						addr = "server:" + p
+					}
+					conn, err := r.dialer.Dial("tcp", addr)
 					if err != nil {
 						vrt.Fail("harness", "dial: %v", err)
 					}
@@ -110,6 +121,10 @@ func init() {
 				var wg sync.WaitGroup
 				for i, spec := range conns {
 					i, spec := i, spec
+					if twoPorts && i%2 == 1 {
+						spec += "@80"
+						port[spec] = "80"
+					}
 					wg.Add(1)
 					vrt.Go("client:"+spec, func() {
 						defer wg.Done()
@@ -260,6 +275,10 @@ func init() {
 			{Scenario: "srv.join", Params: vx.P("conns", "0.1,0.1,0.1", "cap", "2", "pre", "0.7", "replyfault", "first"), Bound: b(2, 3), Weight: 7},
 			{Scenario: "srv.join", Params: vx.P("conns", "0.1,1.1", "cap", "1", "mem", "1"), Bound: b(1, 2), Weight: 6},
 			{Scenario: "srv.join", Params: vx.P("conns", "0.1,0.1", "cap", "1", "mem", "1"), Bound: b(1, 2), Weight: 6},
+			// through two listening ports
+			{Scenario: "srv.join", Params: vx.P("conns", "0.1,0.1", "cap", "1", "listeners", "2"), Bound: b(1, 2), Weight: 6},
+			{Scenario: "srv.join", Params: vx.P("conns", "0.1,0.2,0.3", "cap", "2", "listeners", "2"), Bound: b(1, 2), Weight: 7},
+			{Scenario: "srv.join", Params: vx.P("conns", "0.2,0.2", "pre", "0.1", "cap", "2", "listeners", "2"), Bound: b(1, 2), Weight: 7},
 		}
 		jobs = append(jobs, vx.Job{Scenario: "panel.history", Params: vx.P("depth", fmt.Sprint(b(6, 9))), Weight: 6})
 		for i := range jobs {
